@@ -51,7 +51,7 @@ def one(seed):
             res["apply_error"] = out[-300:]
             return res
         demo = os.path.join(d, "demo.py")
-        if seed.startswith(("B-", "B3-")):
+        if seed.startswith(("B-", "B3-", "benign-")):
             rc, out = sh(f"{PY} -m pytest -q -p no:cacheprovider -x --timeout=900 {scratch}/tests", cwd=scratch, env={"PYTHONPATH": f"{scratch}/src"})
             res["tests_pass_with_change"] = rc == 0
         if os.path.exists(demo):
@@ -109,11 +109,12 @@ def main():
             txt = open(os.path.join(d, "notes.md")).read()
             needs = " ".join(txt.split())[:600]
         if not needs and os.path.exists(os.path.join(d, "subject.txt")):
-            needs = "revert of the repair commit: " + open(os.path.join(d, "subject.txt")).read().strip()
+            needs = ("behaviour-preserving variant written by hand: " if seed.startswith("benign-") else "revert of the repair commit: ") + open(os.path.join(d, "subject.txt")).read().strip()
         meta.update({
             "id": seed,
             "property": target,
-            "origin": "revert of a fix: commit made in this repository" if seed.startswith("regress") else "independent sub-agent given only the property text and a scratch worktree",
+            "origin": "revert of a fix: commit made in this repository" if seed.startswith("regress") else
+                      "written by hand while testing the checkers for false alarms" if seed.startswith("benign-") else "independent sub-agent given only the property text and a scratch worktree",
             "needs_to_manifest": needs,
             "what_was_run": "tools/seedmatrix.py: git archive HEAD into a scratch dir, git apply patch.diff, pytest with PYTHONPATH=<scratch>/src, demo.py with and without the change, "
                             "every registered check with --repo <scratch>; scratch dirs removed",
